@@ -61,7 +61,7 @@ func (p *C14) Prepare(env *Env, tier string, seed uint64) error {
 	if tier == "replay" {
 		return nil
 	}
-	p.exhaustLen = 3
+	p.exhaustLen = 4
 	nRandom := 400
 	if tier == "thorough" {
 		p.exhaustLen = 6
